@@ -18,7 +18,8 @@
 //	[CopyIndependent]       Proposer() of every set equals that set's own entry; scribbling on returned values and
 //	                        on arguments after the call changes nothing
 //	[SortedNoDup]           Validators strictly ascending by address
-//	[ReloadPreservesProposer] [ReloadPreservesSet] State.Save / LoadState round trip keeps proposer, validators, hash
+//	[ReloadPreservesProposer] [ReloadPreservesSet] State.Save / LoadState round trip and the crash-recovery path
+//	                        SaveIntermediate / LoadState / LoadIntermediate keep proposer, validators, hash
 package main
 
 import (
@@ -233,6 +234,35 @@ func (w *world) reload(vs *types.ValidatorSet) (*types.ValidatorSet, error) {
 	st2 := sm.LoadState(db)
 	if st2 == nil || st2.Validators == nil {
 		return nil, fmt.Errorf("LoadState returned nothing")
+	}
+	return st2.Validators, nil
+}
+
+// reloadIntermediate is the crash-recovery round trip: the state of height 6 is saved, the next state (validators vs) only
+// reaches SaveIntermediate (crash before Save), the restarted process loads the saved state and completes the interrupted
+// commit with LoadIntermediate (angine.completeInterruptedCommit).
+func (w *world) reloadIntermediate(vs *types.ValidatorSet) (*types.ValidatorSet, error) {
+	db := dbm.NewMemDB()
+	gen := &types.GenesisDoc{GenesisTime: time.Unix(1500000000, 0), ChainID: "verif-valset"}
+	for _, i := range w.genMem {
+		gen.Validators = append(gen.Validators, types.GenesisValidator{PubKey: w.ids[i-1].pub, Amount: w.genPw[i-1], IsCA: true})
+	}
+	st := sm.MakeGenesisState(db, gen)
+	st.LastValidators = st.Validators
+	st.LastBlockHeight = 6
+	st.Save()
+	next := st.Copy()
+	next.LastValidators = st.Validators.Copy()
+	next.Validators = vs
+	next.LastBlockHeight = 7
+	next.SaveIntermediate()
+	st2 := sm.LoadState(db)
+	if st2 == nil || st2.Validators == nil {
+		return nil, fmt.Errorf("LoadState returned nothing")
+	}
+	st2.LoadIntermediate()
+	if st2.LastBlockHeight != 7 || st2.Validators == nil {
+		return nil, fmt.Errorf("LoadIntermediate left the state at height %d", st2.LastBlockHeight)
 	}
 	return st2.Validators, nil
 }
@@ -530,6 +560,20 @@ func main() {
 						fail("mismatch", false, "internal:reload-keeps-proposer", "the code preserved the proposer over State.Save + LoadState; ValSet.tla still models the unexported cache that is lost", nil, nil)
 					}
 					w.real[s] = r
+					// the same set through the crash-recovery path (SaveIntermediate / LoadIntermediate)
+					ri, err := w.reloadIntermediate(before.Copy())
+					rep.Checks++
+					rep.Count("reloads_intermediate")
+					if err != nil {
+						fail("property", true, "ReloadPreservesSet", "SaveIntermediate/LoadIntermediate failed: "+err.Error(), nil, nil)
+					} else {
+						if d := sameVals(before, ri); d != "" {
+							fail("property", true, "ReloadPreservesSet", "validators/hash differ after SaveIntermediate + LoadState + LoadIntermediate: "+d, nil, nil)
+						}
+						if pi := ri.Copy().Proposer().Address; !bytes.Equal(pi, pb) {
+							fail("property", true, "ReloadPreservesProposer", fmt.Sprintf("accums %v: Proposer() is validator %d before SaveIntermediate and validator %d after crash recovery (LoadState + LoadIntermediate)", accs(before), w.byAddr[string(pb)], w.byAddr[string(pi)]), w.byAddr[string(pb)], w.byAddr[string(pi)])
+						}
+					}
 				case "GetProposer":
 					want := mbt.Int(st.Args[1])
 					got := w.byAddr[string(vs.Proposer().Address)]
